@@ -12,6 +12,7 @@ import (
 	"verif/harness/gen"
 	"verif/harness/refstore"
 
+	"github.com/freeconf/yang/meta"
 	"github.com/freeconf/yang/node"
 	"github.com/freeconf/yang/nodeutil"
 	"github.com/freeconf/yang/parser"
@@ -308,8 +309,32 @@ func stripInsignificantWS(s string) string {
 }
 
 const c15imported = `module g { namespace "urn:g"; prefix g; revision 2020-01-01;
- grouping grp { leaf gl { type string; } container gc { leaf gx { type int32; } } }
+ identity gbase; identity gd { base gbase; }
+ grouping grp { leaf gl { type string; } leaf gi { type identityref { base gbase; } } container gc { leaf gx { type int32; } } }
 }`
+
+// identityref defined in the imported module g: identities of g itself are written bare, those of m qualified
+var c15gIdentType = c15type{"identityref-g", "identityref { base g:gbase; }", func(r *core.Rng) string { return core.Pick(r, []string{"gd", "md"}) }, func(s string, _ bool) (string, string) {
+	if s == "md" {
+		return "s", "m:md"
+	}
+	return "s", s
+}}
+
+// c15module completes a generated schema with the nodes of an imported module's grouping (namespace urn:g),
+// a leaf that m augments into that grouping's container (namespace urn:m again), and loads it.
+func c15module(sc *c15schema, ts []c15type) (*meta.Module, string, error) {
+	gc := &gen.SNode{Name: "gwrap", Kind: "cont", Kids: []*gen.SNode{{Name: "gl", Kind: "leaf", Type: "string"}, {Name: "gi", Kind: "leaf", Type: "identityref"},
+		{Name: "gc", Kind: "cont", Kids: []*gen.SNode{{Name: "gx", Kind: "leaf", Type: "int32"}, {Name: "ga", Kind: "leaf", Type: "string"}}}}}
+	sc.mod["gwrap"], sc.mod["gl"], sc.mod["gi"], sc.mod["gc"], sc.mod["gx"], sc.mod["ga"] = "m", "g", "g", "g", "g", "m"
+	sc.types["gl"], sc.types["gi"], sc.types["gx"], sc.types["ga"] = ts[0], c15gIdentType, ts[3], ts[0]
+	sc.kids = append(sc.kids, gc)
+	y := "module m { namespace \"urn:m\"; prefix m; import g { prefix g; } revision 2020-01-01;\n identity idb; identity d1 { base idb; } identity d2 { base d1; } identity md { base g:gbase; }\n" +
+		c15yang(sc, sc.kids[:len(sc.kids)-1], "  ") + "  container gwrap { uses g:grp { augment gc { leaf ga { type string; } } } }\n}\n"
+	opener := source.Any(source.Named("m", strings.NewReader(y)), source.Named("g", strings.NewReader(c15imported)))
+	m, err := parser.LoadModule(opener, "m")
+	return m, y, err
+}
 
 func C15(c *core.Ctx) {
 	c.Rule = "generated schemas (every built-in leaf type incl. empty, enum, bits, identityref, union, 64-bit extremes, leaf-lists; containers, keyed lists, nodes contributed by a grouping of an imported module) × conforming trees × all 8 writer configurations (Pretty × EnumAsIds × QualifyNamespace) × start selection (root, container, list, list entry); output (i) parsed by encoding/json as exactly one value and compared with the expected RFC 7951 value, (ii) compared byte-for-byte with the Lean writer model (compact), (iii) pretty output minus insignificant white space = compact output, (iv) failing output stream at every byte position of small documents. non-trivial = document with ≥2 members and a nested container or list; distinct by (schema, tree, configuration, start)"
@@ -375,17 +400,7 @@ func C15(c *core.Ctx) {
 		c15seq = 0
 		sc := &c15schema{types: map[string]c15type{}, lists: map[string]bool{}, mod: map[string]string{}}
 		sc.kids = c15genKids(r, sc, ts, 0, 2+r.Intn(4), "m")
-		// nodes of an imported grouping
-		gc := &gen.SNode{Name: "gwrap", Kind: "cont", Kids: []*gen.SNode{{Name: "gl", Kind: "leaf", Type: "string"}, {Name: "gc", Kind: "cont", Kids: []*gen.SNode{{Name: "gx", Kind: "leaf", Type: "int32"}}}}}
-		sc.mod["gwrap"] = "m"
-		sc.mod["gl"], sc.mod["gc"], sc.mod["gx"] = "g", "g", "g"
-		sc.types["gl"] = ts[0]
-		sc.types["gx"] = ts[3]
-		sc.kids = append(sc.kids, gc)
-		y := "module m { namespace \"urn:m\"; prefix m; import g { prefix g; } revision 2020-01-01;\n identity idb; identity d1 { base idb; } identity d2 { base d1; }\n" +
-			c15yang(sc, sc.kids[:len(sc.kids)-1], "  ") + "  container gwrap { uses g:grp; }\n}\n"
-		opener := source.Any(source.Named("m", strings.NewReader(y)), source.Named("g", strings.NewReader(c15imported)))
-		m, err := parser.LoadModule(opener, "m")
+		m, y, err := c15module(sc, ts)
 		if err != nil {
 			c.Violation(core.Replay{Kind: "harness", Summary: "C15 module does not load: " + err.Error(), Input: y, NoInputFound: true})
 			return
